@@ -83,6 +83,10 @@ BufferCmd == \E h \in Handles({"buf"}) :
     \/ Do(E("b_setn", h, "none", 0, "", <<TI(0), TL(<<TF(1), TF(2)>>)>>, <<>>, "none", <<>>))
     \/ Do(E("b_fill", h, "none", 0, "", <<TI(0), TI(4), TF(4)>>, <<>>, "none", <<>>))
     \/ Do(E("b_query", h, "none", 0, "", <<>>, <<>>, "none", <<>>))
+    \/ Do(E("b_getn", h, "none", 0, "", <<>>, <<0, 4>>, "none", <<>>))
+    \/ Do(E("b_sine2", h, "none", 0, "", <<TI(1), TF(8), TI(3), TF(2)>>, <<1, 0, 1>>, "none", <<>>))
+    \/ Do(E("b_normalize", h, "none", 0, "", <<TF(4)>>, <<1>>, "none", <<>>))
+    \/ \E d \in Handles({"buf"}) : st.obj[d].alive /\ Do(E("b_copy", h, "obj", d, "", <<>>, <<0, 0, 0 - 1>>, "none", <<>>))
     \/ (st.obj[h].alive /\ \/ Do(E("b_read", h, "none", 0, "", <<>>, <<0, 0 - 1, 0, 1>>, "none", <<>>))
                            \/ Do(E("b_cue", h, "none", 0, "", <<>>, <<16, 8>>, "func", <<>>))
                            \/ Do(E("b_write", h, "none", 0, "", <<>>, <<0 - 1, 0, 1>>, "none", <<>>))
